@@ -184,9 +184,28 @@ func (m *Monitors) judgeDelivery(n *Node, msg *Msg, pre Pre) {
 	com := w.Committee(primitives.BlockHeight(pre.H))
 	if meta.Union == UNV {
 		nv := interfaces.ToConsensusMessage(msg.Raw).(*interfaces.NewViewMessage)
-		vd, _ := w.Env.ValidNewView(nv, primitives.BlockHeight(pre.H), com, commitmentOK, m.consumerOKAt(n, pre.H))
+		vd, info := w.Env.ValidNewView(nv, primitives.BlockHeight(pre.H), com, commitmentOK, m.consumerOKAt(n, pre.H))
 		if vd.OK && meta.V < pre.V {
 			vd = ref.Verdict{Why: "stale-view"}
+		}
+		if vd.OK && info != nil && !info.Locked {
+			// no authentic vote carries a valid proof: the proposal is a fresh block, which the node adopts only after ITS consumer
+			// validated it - the call must have been made during this delivery, for this hash, with a positive verdict
+			adopted := false
+			for _, s := range eff.Stored {
+				if s.Kind == "PP" && uint64(s.V) == meta.V && s.Hash == meta.Hash {
+					adopted = true
+				}
+			}
+			validated := false
+			for _, vc := range n.BU.Validates[pre.ValLen:] {
+				if uint64(vc.H) == pre.H && vc.Hash == meta.Hash && vc.OK {
+					validated = true
+				}
+			}
+			if adopted && !validated {
+				m.fail("C07", "fresh-proposal-adopted-without-consumer-validation", "node %d in (h=%d,v=%d) adopted the proposal of NEW_VIEW(v=%d), in which no authentic vote carries a valid prepared proof, without asking its ValidateBlockProposal", n.Idx, pre.H, pre.V, meta.V)
+			}
 		}
 		if !vd.OK {
 			m.fail("C07", "invalid-new-view-had-effect:"+vd.Why, "node %d in (h=%d,v=%d): NEW_VIEW(v=%d) that fails the reference certificate check (%s) had an effect (stored=%d sends=%d viewMoved=%v)", n.Idx, pre.H, pre.V, meta.V, vd.Why, len(eff.Stored), len(eff.Sends), eff.ViewMoved)
